@@ -295,6 +295,8 @@ def run(ctx, only_replay=None):
             cov_feat["cap:%d" % cap] = cov_feat.get("cap:%d" % cap, 0) + 1
         if d["aborts"]:
             cov_feat["abort-racing"] = cov_feat.get("abort-racing", 0) + 1
+        for x in d.get("bad_select") or []:
+            cov_feat["failed-select-then-use:" + x] = cov_feat.get("failed-select-then-use:" + x, 0) + 1
         if d.get("late_give"):
             cov_feat["give-on-closed-then-use"] = cov_feat.get("give-on-closed-then-use", 0) + 1
         if d["gc_consumers"]:
